@@ -7,7 +7,13 @@ naming the constant stops checking and the check asks for a re-transcription):
   lcm_native            numeric/lcm.rs       1: `a.abs()`, `(abs_a / gcd) * abs_b`;  0: div_checked / mul_checked / neg_checked -> Err
   factorial_null        numeric/factorial.rs 1: negative input and overflow `put_null()`;  0: both fail the statement
   shr_zero_fill         binary/shr.rs        1: `checked_shr(b as u32).unwrap_or_default()`;  0: `None if b > 0 => (a >> (bits-1)) >> 1`
-  d2d_scale_sub_native  cast/builtin/to_decimal.rs DecimalToDecimal::bind  1: `src_meta.scale - target_meta.scale`;  0: checked_sub -> Err"""
+  d2d_scale_sub_native  cast/builtin/to_decimal.rs DecimalToDecimal::bind  1: `src_meta.scale - target_meta.scale`;  0: checked_sub -> Err
+Decimal comparisons (model/NumFn.v cparams):
+  decbind_i8            scalar/builtin/comparison.rs decimal_bind  1: digit counts in i8 (`(l_meta.precision as i8) - l_meta.scale`);
+                        0: in i16 with `i16::clamp(max_int_digits + max_scale as i16, 1, D::MAX_PRECISION as i16)`
+  u64_dec_precision     arrays/datatype.rs DecimalTypeMeta::new_for_datatype_id(UInt64).precision (19 or 20)
+  wide_dec128           cast/builtin/to_decimal.rs  0: Int64, UInt64, Decimal64 -> Decimal128 use TO_DECIMAL128_CAST_RULE and UInt64 -> Decimal64
+                        is implicit; 1: those three use WIDE_TO_DECIMAL128_CAST_RULE (= f64 score + 2, cast/mod.rs) and UInt64 -> Decimal64 is Explicit"""
 import os, re
 from . import common
 
@@ -57,6 +63,36 @@ def scan():
     nat = bool(re.search(r"let scale_diff = src_meta\.scale - target_meta\.scale;", b))
     chk = bool(re.search(r"let scale_diff = src_meta\s*\.scale\s*\.checked_sub\(target_meta\.scale\)\s*\.ok_or_else\(", b))
     t["d2d_scale_sub_native"] = 1 if nat and not chk else 0 if chk and not nat else None
+    # ---- decimal comparisons
+    cmp = _read("functions/scalar/builtin/comparison.rs")
+    m = re.search(r"fn decimal_bind<D>.*?\n\}", cmp, re.S)
+    b = m.group(0) if m else ""
+    nat = bool(re.search(r"\(l_meta\.precision as i8\) - l_meta\.scale", b) and re.search(r"\(r_meta\.precision as i8\) - r_meta\.scale", b)
+               and re.search(r"\(max_int_digits \+ max_scale\) as u8", b) and re.search(r"if new_prec > D::MAX_PRECISION", b))
+    chk = bool(re.search(r"\(l_meta\.precision as i16\) - \(l_meta\.scale as i16\)", b) and re.search(r"\(r_meta\.precision as i16\) - \(r_meta\.scale as i16\)", b)
+               and re.search(r"i16::clamp\(max_int_digits \+ max_scale as i16, 1, D::MAX_PRECISION as i16\) as u8", b))
+    shape = bool(re.search(r"let max_scale = i8::max\(l_meta\.scale, r_meta\.scale\);", b) and re.search(r"if l_meta != new_meta", b)
+                 and re.search(r"if r_meta != new_meta", b) and re.search(r"if l_meta != r_meta", b))
+    t["decbind_i8"] = (1 if nat and not chk else 0 if chk and not nat else None) if shape else None
+    dt = _read("arrays/datatype.rs")
+    m = re.search(r"fn\s+new_for_datatype_id.*?\n    \}", dt, re.S)
+    blk = m.group(0) if m else ""
+    m = re.search(r"DataTypeId::UInt64\s*=>\s*\{.*?precision:\s*(\d+),\s*scale:\s*(\d+)", blk, re.S)
+    t["u64_dec_precision"] = int(m.group(1)) if m and m.group(2) == "0" and int(m.group(1)) in (19, 20) else None
+    cm = _read("functions/cast/mod.rs")
+    rule = lambda src, dst: (re.search(r"RawCastFunction::new\(DataTypeId::%s, &\w+::<\w+, %s>::new\(\), ([A-Za-z0-9_:]+)," % (src, dst), td) or [None, None])[1]
+    r = [rule("Int64", "Decimal128Type"), rule("UInt64", "Decimal128Type"), rule("Decimal64", "Decimal128Type"), rule("UInt64", "Decimal64Type"),
+         rule("Int64", "Decimal64Type")]
+    wide_def = bool(re.search(r"pub const WIDE_TO_DECIMAL128_CAST_RULE: CastRule =\s*CastRule::Implicit\(DEFAULT_IMPLICIT_CAST_SCORES\.f64 \+ 2\);", cm))
+    scores = bool(re.search(r"f64: 181,", cm) and re.search(r"decimal64: 141,", cm) and re.search(r"decimal128: 140,", cm))
+    if not scores or r[4] != "CastRule::Explicit":
+        t["wide_dec128"] = None
+    elif r[:4] == ["TO_DECIMAL128_CAST_RULE"] * 3 + ["TO_DECIMAL64_CAST_RULE"]:
+        t["wide_dec128"] = 0
+    elif r[:4] == ["WIDE_TO_DECIMAL128_CAST_RULE"] * 3 + ["CastRule::Explicit"] and wide_def:
+        t["wide_dec128"] = 1
+    else:
+        t["wide_dec128"] = None
     return t
 
 
